@@ -85,7 +85,8 @@ def scenario_oracle(sc, res):
 def run(out, tier, rng, work):
     out.rule = ('item-level correspondence: bit-walking/boundary/random inputs through the real classes vs the generated Coq '
                 'definitions (vm_compute); oracle: round-trip and SAE-position predicates on the real classes vs plain-arithmetic '
-                'reference; non-trivial = every input (each exercises the codec); distinct by input value')
+                'reference; non-trivial = every input (each exercises the codec); distinct by input value'
+                ' Arbitration NAMEs also differ in exactly two fields in opposite directions, every pair of the nine fields in turn.')
     C.std_proof_stage(out, 'C15', FILES)
     n = 400 if tier == 'quick' else 4000
     total, mism, errors = items.run_items(ITEMS, rng, n, work, C)
